@@ -26,7 +26,10 @@
 //   gap_msg_before built sets incl. requested members spanning 255/256/257/258 numbers and far
 //   beyond the window; INFO_TS (4 timestamps, invalidate),
 //   INFO_DST, HEARTBEAT_FRAG (hand-made header: the crate has no constructor); sequence numbers
-//   1, 2^32, 2^62-1, fragment numbers up to u32::MAX; 4 message headers.  Every such submessage
+//   1, 2^32, 2^62-1, fragment numbers up to u32::MAX; 4 message headers.  Header dimension:
+//   protocol versions {0.9, 1.0, 1.255, 2.0, 2.1, 2.4, 2.5, 2.255} x 4 vendor ids x 2 prefixes on the
+//   empty message, every representative submessage and every ordered pair of them (wire.roundtrip:
+//   major <= 2 is accepted whatever the minor / vendor); majors 3 and 255 refused (wire.header.version).  Every such submessage
 //   alone, and all ordered pairs and triples of a 20-element representative subset (mixed byte
 //   orders in one message).
 #[cfg(test)]
@@ -560,6 +563,44 @@ mod verif_xc_wire_roundtrip {
       pick(&be, "GAP[BE start=1 base=1 num_bits=64 members=base+[63]"),
       pick(&be, "HEARTBEAT[BE 4294967296..4294967301 count=2147483647 final=true liveliness=true"),
     ]
+  }
+
+  // RTPS 8.3.6.3: a header is invalid only if the protocol id is wrong or the MAJOR protocol version
+  // is larger than the one the implementation supports (2); any minor version and any vendor id must
+  // be processed.  So every message the crate can build with major <= 2 must round-trip, whatever
+  // the minor / vendor, and one with a larger major must be refused.
+  #[test]
+  fn xc_wire_header_versions_and_vendors() {
+    let r = representative();
+    let (mut n, mut refused) = (0u64, 0u64);
+    for (major, minor) in [(1u8, 0u8), (2, 0), (2, 1), (2, 4), (2, 5), (2, 255), (1, 255), (0, 9)] {
+      for vendor in [VendorId::THIS_IMPLEMENTATION, VendorId::VENDOR_UNKNOWN, VendorId { vendor_id: [0x01, 0x03] }, VendorId { vendor_id: [0xFF, 0xFF] }] {
+        for prefix in [GuidPrefix::UNKNOWN, rguid().prefix] {
+          let h = Header { protocol_id: ProtocolId::PROTOCOL_RTPS, protocol_version: ProtocolVersion { major, minor }, vendor_id: vendor, guid_prefix: prefix };
+          check(h, &[]);
+          n += 1;
+          for a in &r {
+            check(h, &[a]);
+            n += 1;
+            for b in &r {
+              check(h, &[a, b]);
+              n += 1;
+            }
+          }
+        }
+      }
+    }
+    for (major, minor) in [(3u8, 0u8), (3, 4), (255, 255)] {
+      for a in &r {
+        let h = Header { protocol_id: ProtocolId::PROTOCOL_RTPS, protocol_version: ProtocolVersion { major, minor }, vendor_id: VendorId::THIS_IMPLEMENTATION, guid_prefix: wguid().prefix };
+        let msg = Message { header: h, submessages: vec![a.sub.clone()] };
+        let bytes = msg.write_to_vec_with_ctx(a.e).unwrap();
+        let parsed = Message::read_from_buffer(&Bytes::from(bytes.clone()));
+        assert!(parsed.is_err(), "XC-WITNESS label=wire.header.version message=[{}] header version {}.{}: a larger major protocol version than 2 must be refused (RTPS 8.3.6.3), parsed {:?}; bytes = {}", a.name, major, minor, parsed, hex(&bytes));
+        refused += 1;
+      }
+    }
+    assert!(n > 25_000 && refused == 60, "vacuity guard: {} messages, {} refused", n, refused);
   }
 
   #[test]
